@@ -68,7 +68,7 @@ def make_scenarios(ctx, rng):
             form, p = PROMPTS[k % 4]
             k += 1
             lines = [','.join([rng.choice(SMALL[t]) for t in tv]) for _ in range(20)]
-            lines += ['1,2', '1,2,3,4', ',,', ',,,']
+            lines += ['1,2', '1,2,3,4', ',,', ',,,', ','.join('s' if t == 'T' else '1' for t in tv)]
             sc.append({'types': list(tv), 'form': form, 'prompt': p, 'lines': sorted(set(lines))})
     return sc
 
